@@ -157,12 +157,17 @@ CLAIMED["C10"] = dict(
 CLAIMED["C04"] = dict(
     level="other", design="3/C04",
     technique="static analysis: phi-evaluation (forward substitution with opaque merge symbols at branches, constant loops unrolled) of the "
-              "flux application and state update code, computer-algebra check of antisymmetry / common scaling, non-negativity-by-construction flags",
+              "flux application and state update code, computer-algebra check of antisymmetry / common scaling, non-negativity-by-construction flags; "
+              "for the reflecting wall: the HLLC decision tree specialised to a mirror pair, branch exclusion by outward-rounded interval "
+              "evaluation (branch and bound over Mach number x adiabatic index), CAS zero test of the wall mass and energy flux",
     text="Decides, for every state and every limiter outcome at once, that the five updates a face flux applies to its left and right cell "
          "cancel exactly, that all five carry the same area/limiter factor relative to the Riemann output, that nothing else of the cell "
          "states is written, that a boundary flux changes only the inside cell, and that the final writes of mass, energy, density and pressure "
          "are max(.,0) clamps or non-negative by construction on every path. With C10 (each face once) this is conservation wherever the "
-         "safeguard does not intervene. Finiteness, the reflective-wall clause and the round-off size are numeric and not decided.",
+         "safeguard does not intervene. At a reflecting wall: the ghost state is the mirror image of the wall cell, and for a mirror pair "
+         "of face states the HLLC mass and energy flux vanish identically on every solver branch that a wall-normal Mach number in [0, 1.5] "
+         "can reach, for every gamma in (1, 2]. Finiteness, the round-off size and the symmetry of the second-order face reconstruction "
+         "at a wall are not decided.",
     note="Trusted: clang, AST export, sympy; the Riemann solver's outputs are opaque symbols (its own symmetry is C05).")
 
 CLAIMED["C01"] = dict(
@@ -183,14 +188,17 @@ CLAIMED["C20"] = dict(
     level="other", design="3/C20",
     technique="static analysis: extraction of the unit table, SI-name table, conversion list and of every default unit literal in the "
               "library (call-site query over all units) with exact rational consistency checks; structural stack-discipline rule on the YAML parser; "
-              "writer/reader name-table agreement for the HDF5 snapshot (string patterns resolved through the field-name switch)",
+              "writer/reader name-table agreement for the HDF5 snapshot (string patterns resolved through the field-name switch); "
+              "path-partitioned provenance (dataset-label) dataflow over the snapshot readers' value path",
     text="Decides the self-consistency of the built-in tables and of all their users: SI-prefixed table entries differ from their base unit by "
          "exactly the prefix power; every quantity has an SI name made of factor-1 table units; every default unit literal passed to "
          "get_physical_value/get_physical_vector anywhere in the library parses and has the dimension of its quantity (or a registered "
          "conversion); the parameter-file parser keeps group and indentation stacks in lock step, closes every deeper group on a dedent and "
          "clears both on a top-level line; every group, attribute and dataset name (with element type and per-ion suffix function) the "
          "snapshot reader asks for is one the snapshot writer produces, stored unit values x conversion applied = 1, and parameter keys read "
-         "back from a snapshot are keys the components read. The parse/print round trip for arbitrary trees, printed precision and the "
+         "back from a snapshot are keys the components read; on the paths that read the stored density, temperature and neutral fractions "
+         "no value derived from a dataset is an unguarded denominator and each value handed to a cell derives from the dataset of its "
+         "quantity. The parse/print round trip for arbitrary trees, printed precision and the "
          "HDF5 library itself are not decided.",
     note="Trusted: clang, AST export, sympy rationals; literal values are read as written in the source.")
 
